@@ -42,7 +42,11 @@ def main():
         first = sorted({tuple(p) for p, node in allp if p and is_coll(node) and odd(node)})
         cpaths = first + [k for k in cp if k not in first]
         colls = []
-        for key in cpaths[:(8 if quick else 30)]:
+        # collections whose keys need escaping in one of the spellings: every binding mode (nothing left to the seed)
+        for key in first[:(8 if quick else 30)]:
+            for op, mode, n1, n2 in (("any", "default", "v", ""), ("all", "value", "", "v"), ("any", "both", "k", "v")):
+                colls.append({"op": op, "sel": {"ty": "bexpr", "path": list(key)}, "mode": mode, "n1": n1, "n2": n2})
+        for key in [k for k in cpaths if k not in first][:(8 if quick else 30)]:
             mode = rnd.choice(["default", "value", "both"])
             n1, n2 = {"default": ("v", ""), "value": ("", "v"), "both": ("k", "v")}[mode]
             colls.append({"op": rnd.choice(["any", "all"]), "sel": {"ty": "bexpr", "path": list(key)}, "mode": mode, "n1": n1, "n2": n2})
